@@ -403,7 +403,7 @@ func exploreFamily(c *core.Ctx, fam firstUse, bound int, extraFor func(idx []int
 func runC19(c *core.Ctx) {
 	needShim("C19")
 	bound := core.Pick(c, 2, 3)
-	c.Rule = fmt.Sprintf("E-SCHED (see C18 for the engine). Families of concurrent first use, each execution starting from fresh never-used state: (a) a fresh impl.MessageInfo for TestAllTypes (double-checked init under initMu/initDone, coder and reflection tables) used through fast-path methods and reflection; (b) a fresh filedesc.File from filedesc.Builder (lazyInit mutex + atomic once, sync.Once-guarded lookup tables of desc_list) read through every kind of accessor; (c) the global registries: RegisterFile / RegisterMessage of a new file and type concurrent with lookups by path, name, package and URL; (e) fresh impl.ExtensionInfo values, one initialised from a descriptor as new generated code does and one from the exported v1 fields as old generated code does, used through SetExtension/Marshal/Unmarshal/descriptor/New/ValueOf; (d) legacy wrappers with all derived-descriptor caches reset (hook added by the overlay): an aberrant cyclic Parent/Child pair, a legacy generated message and an enum. For EVERY multiset of 2 and of 3 operations (quick: triples over the first few operations) EVERY schedule with at most %d preemptions (one less for 3 threads) at synchronisation operations is run. Registering the same file or type twice panics by design and is not a scenario. Oracle: no panic, no deadlock, each thread observes exactly what a sequential program observes (for (c): a result some sequential order produces, and after the run everything is found and is the registered instance), and later sequential users of the same state observe the same. Free-running race-detector pass of the same bodies as a supplementary child", bound)
+	c.Rule = fmt.Sprintf("E-SCHED (see C18 for the engine). Families of concurrent first use, each execution starting from fresh never-used state: (a) a fresh impl.MessageInfo for TestAllTypes (double-checked init under initMu/initDone, coder and reflection tables) used through fast-path methods and reflection; (b) a fresh filedesc.File from filedesc.Builder (lazyInit mutex + atomic once, sync.Once-guarded lookup tables of desc_list) read through every kind of accessor; (c) the global registries: RegisterFile / RegisterMessage of a new file and type concurrent with lookups by path, name, package and URL; (e) fresh impl.ExtensionInfo values, one initialised from a descriptor as new generated code does and one from the exported v1 fields as old generated code does, used through SetExtension/Marshal/Unmarshal/descriptor/New/ValueOf; (f) the needsInitCheck cache (reset by the overlay hook) under concurrent first use of two fresh MessageInfos of a type whose required fields sit in a sub-message: Marshal / CheckInitialized / Unmarshal of a partial message must report it; (d) legacy wrappers with all derived-descriptor caches reset (hook added by the overlay): an aberrant cyclic Parent/Child pair, a legacy generated message and an enum. For EVERY multiset of 2 and of 3 operations (quick: triples over the first few operations) EVERY schedule with at most %d preemptions (one less for 3 threads) at synchronisation operations is run. Registering the same file or type twice panics by design and is not a scenario. Oracle: no panic, no deadlock, each thread observes exactly what a sequential program observes (for (c): a result some sequential order produces, and after the run everything is found and is the registered instance), and later sequential users of the same state observe the same. Free-running race-detector pass of the same bodies as a supplementary child", bound)
 	c.Exhaustive = true
 	var race *core.Child
 	if !core.IsChild() {
